@@ -1,8 +1,8 @@
 #!/bin/bash
 # tools/seed_eval.sh <Cxx> <k> [check ids...]  -- confirm a seeded change and run our check(s) against it.
 # Uses the scratch worktree /tmp/seed/<Cxx>/wt; never touches /repo.
-P=$1; K=$2; shift 2; CHECKS=${@:-$P}
-WT=/tmp/seed/$P/wt; OUT=/tmp/seed/$P/out/$K
+P=$1; K=$2; shift 2; CHECKS=${@:-$P}; SEED_BASE=${SEED_BASE:-/tmp/seed}
+WT=$SEED_BASE/$P/wt; OUT=$SEED_BASE/$P/out/$K
 cd $WT || exit 2
 git checkout -q -- . ; git checkout -q --detach main
 echo "== demo on clean tree"; PYTHONPATH=$WT NUMBA_CACHE_DIR=$WT/.numba_cache /venv/bin/python -W ignore $OUT/demo.py 2>&1 | tail -3; echo "exit=$?"
